@@ -1,4 +1,4 @@
-CONSTANTS Wide = FALSE MaxExtra = 2 Mixture = TRUE
+CONSTANTS Decomp = FALSE Wide = FALSE MaxExtra = 2 Mixture = TRUE
 SPECIFICATION Spec
 INVARIANT Inv_C13Design
 CHECK_DEADLOCK FALSE
